@@ -49,7 +49,7 @@ def unit_cell(prog, u):
 def gen_case(seed):
     rng = core.stream(seed, "gen")
     F = {"p_hidden": 0.0}
-    for k, p in (("p_alias", 0.5), ("p_recur", 0.6), ("p_explicit", 0.5), ("p_salt", 0.4)):
+    for k, p in (("p_alias", 0.5), ("p_wrapped", 0.5), ("p_recur", 0.6), ("p_explicit", 0.5), ("p_salt", 0.4)):
         if rng.random() > p:
             F[k] = 0.0
     prog = progen.gen_program(rng, F, n_nodes=rng.randrange(2, 7))
@@ -60,11 +60,11 @@ def gen_case(seed):
     units = []
     for mi in range(len(prog["modules"])):
         units += [tuple(u) for u in progen.default_order(prog, mi)]
-    plain_units = [u for u in units if u[0] != "a"]
+    plain_units = [u for u in units if u[0] not in ("a", "w")]
     rng.shuffle(plain_units)
     order = list(plain_units)
     for u in units:
-        if u[0] == "a":
+        if u[0] in ("a", "w"):
             pos = order.index(("n", u[1])) + 1
             order.insert(pos + rng.randrange(0, len(order) - pos + 1), u)
     defined = set()
@@ -107,7 +107,7 @@ def gen_case(seed):
             events.append({"op": "setattr", "module": g["module"], "name": g["name"], "value": g["value"], "unit": ["g", e["gid"]],
                            "folded": progen.render_global(new, e["gid"])})
             touched = set(u for u in touched if u[0] != "g")
-        ordk = {"g": 0, "b": 0, "n": 1, "a": 2}
+        ordk = {"g": 0, "b": 0, "n": 1, "a": 2, "w": 2}
         for u in sorted(touched, key=lambda u: (ordk[u[0]], u[1])):
             ev = unit_cell(new, u)
             ev["kind"] = e["kind"]
@@ -243,7 +243,9 @@ def live_events(events, prog):
     """B_min: for each bound unit only its last binding cell; in-place mutations folded into one assignment.
     Aliases that no function of the current program mentions any more are dead bindings and are dropped."""
     used_alias = set(c["to"] for n in prog["nodes"] for c in n["calls"] if c["form"] == "alias")
-    events = [e for e in events if not (e["op"] == "cell" and e["unit"][0] == "a" and e["unit"][1] not in used_alias)]
+    used_wrapped = set(c["to"] for n in prog["nodes"] for c in n["calls"] if c["form"] == "wrapped")
+    events = [e for e in events if not (e["op"] == "cell" and e["unit"][0] == "a" and e["unit"][1] not in used_alias)
+              and not (e["op"] == "cell" and e["unit"][0] == "w" and e["unit"][1] not in used_wrapped)]
     last = {}
     for i, ev in enumerate(events):
         if ev["op"] in ("cell", "setattr", "mutate"):
